@@ -283,7 +283,7 @@ def run(tier, replay):
         if w.get("wrapped_by"):
             cmd = w["wrapped_by"].split() + cmd
         os.makedirs(vlib.SCRATCH, exist_ok=True)
-        rc, out, err, to = run_harness(cmd, 1200, TSAN_ENV if w.get("flavor") == "tsan" else None, child, wrapped=bool(w.get("wrapped_by")))
+        rc, out, err, to = run_harness(cmd, 1200, TSAN_ENV if w.get("flavor") == "tsan" else None, child, wrapped=(cmd[0] == "strace"))
         e = err.decode("utf-8", "replace")
         print(e[-3000:])
         bad = [r["viol"] for r in vlib.parse_jsonl(out) if "viol" in r] + [k for k, _, _ in tsan_reports(e)]
@@ -309,7 +309,7 @@ def run(tier, replay):
                         tasks.append(dict(flavor=fl, profile=prof, lo=lo, hi=hi, wrap=None, extra=None))
         # background-task limit forced low: the "not allowed to release" path
         for fl in ("tsan", "asan"):
-            tasks.append(dict(flavor=fl, profile="release", lo=1000, hi=1000 + (40 if th else 6), wrap=None, extra=["--bgmax", "1"]))
+            tasks.append(dict(flavor=fl, profile="release", lo=100000, hi=100000 + (40 if th else 6), wrap=None, extra=["--bgmax", "1"]))
         # strace fault injection: the K-th poll() of every thread fails with ENOMEM
         for fl in ("tsan", "asan"):
             for k in ((1, 2, 3, 5, 8) if th else (1, 2)):
